@@ -40,6 +40,6 @@ func (k subjectKind) New() ro.Subject[int] {
 
 var subjectKinds = []subjectKind{
 	{"publish", 0}, {"behavior", 0}, {"async", 0},
-	{"replay", 1}, {"replay", 2}, {"replay", 3}, {"replay", -1},
-	{"unicast", 1}, {"unicast", 2}, {"unicast", 3}, {"unicast", -1},
+	{"replay", 0}, {"replay", 1}, {"replay", 2}, {"replay", 3}, {"replay", -1},
+	{"unicast", 0}, {"unicast", 1}, {"unicast", 2}, {"unicast", 3}, {"unicast", -1},
 }
